@@ -1,6 +1,70 @@
-(* Ops/C09.v — protocol entry points for property C09 (stub until the model is built). *)
-From Coq Require Import List String.
-From PrefVerif Require Import Lib.Val.
-Import ListNotations.
+(* Ops/C09.v — protocol entry points for property C09 (matching files, Model/WmdIO.v at W := text:
+   a weight is its raw token).
 
-Definition ops : optable := [].
+   meta     = (file_name title description data_type modification_type relates_to related_files
+               publication_date modification_date num_alternatives num_voters ((alt name) ...))
+   instance = (meta num_edges ((node (neighbour ...)) ...) (((n1 n2) token) ...))
+   c09.write     instance                                  -> result text   (Err 5 = KeyError in write)
+   c09.parse     (autocorrect header_only data_type file_name splitter text) -> result instance
+                 splitter: 0 = file.readlines() (parse_file), 1 = str.splitlines() (parse_str)
+   c09.roundtrip instance -> (result instance', text written from the instance, result text written from instance')
+   c09.build     ((0 node) | (1 n1 n2 token) ...)          -> (node_mapping weights) after these add_node / add_edge
+                                                              calls on an empty WeightedDiGraph *)
+From Coq Require Import List ZArith NArith String.
+From PrefVerif Require Import Lib.Val Lib.Dec Lib.PyStr Model.Meta Model.WmdIO.
+Import ListNotations.
+Open Scope string_scope.
+
+Definition d_text (v : val) : text := dlist dN v.
+Definition e_text (t : text) : val := elist eN t.
+
+Definition d_meta (v : val) : meta :=
+  mkMeta (d_text (dnth 0 v)) (d_text (dnth 1 v)) (d_text (dnth 2 v)) (d_text (dnth 3 v)) (d_text (dnth 4 v))
+         (d_text (dnth 5 v)) (d_text (dnth 6 v)) (d_text (dnth 7 v)) (d_text (dnth 8 v))
+         (dN (dnth 9 v)) (dN (dnth 10 v)) (dlist (dpair dN d_text) (dnth 11 v)) [].
+Definition e_meta (m : meta) : val :=
+  VL [e_text (file_name m); e_text (title m); e_text (description m); e_text (data_type m);
+      e_text (modification_type m); e_text (relates_to m); e_text (related_files m);
+      e_text (publication_date m); e_text (modification_date m); eN (num_alternatives m);
+      eN (num_voters m); elist (epair eN e_text) (alt_names m)].
+
+Definition d_inst (v : val) : twinst :=
+  mkW (d_meta (dnth 0 v)) (dN (dnth 1 v))
+      (dlist (dpair dN (dlist dN)) (dnth 2 v))
+      (dlist (dpair (dpair dN dN) d_text) (dnth 3 v)).
+Definition e_inst (i : twinst) : val :=
+  VL [e_meta (w_meta i); eN (w_num_edges i);
+      elist (epair eN (elist eN)) (w_nodes i);
+      elist (epair (epair eN eN) e_text) (w_weights i)].
+
+Definition write_r (i : twinst) : result text :=
+  if wmd_write_ok i then Ok (wmd_write_tok i) else Err OtherErr.
+
+Definition op_write (v : val) : val := eresult e_text (write_r (d_inst v)).
+
+Definition split_lines (splitter : nat) (t : text) : list text :=
+  match splitter with O => readlines t | _ => splitlines t end.
+
+Definition op_parse (v : val) : val :=
+  let ac := dbool (dnth 0 v) in
+  let ho := dbool (dnth 1 v) in
+  let m0 := set_file_name (meta0 (d_text (dnth 2 v))) (d_text (dnth 3 v)) in
+  eresult e_inst (wmd_parse_tok ac ho m0 (split_lines (dnat (dnth 4 v)) (d_text (dnth 5 v)))).
+
+Definition op_roundtrip (v : val) : val :=
+  let i := d_inst v in
+  let t := wmd_write_tok i in
+  let r := wmd_parse_tok false false (meta0 (lit "wmd")) (readlines t) in
+  VL [eresult e_inst r; eresult e_text (write_r i); eresult e_text (rbind r write_r)].
+
+Definition build_step (g : nmap * wtab text) (v : val) : nmap * wtab text :=
+  match dnat (dnth 0 v) with
+  | O => (add_node (dN (dnth 1 v)) (fst g), snd g)
+  | _ => add_edge (dN (dnth 1 v)) (dN (dnth 2 v)) (d_text (dnth 3 v)) g
+  end.
+Definition op_build (v : val) : val :=
+  let g := fold_left build_step (dlist (fun x => x) v) ([], []) in
+  VL [elist (epair eN (elist eN)) (fst g); elist (epair (epair eN eN) e_text) (snd g)].
+
+Definition ops : optable :=
+  [ ("c09.write", op_write); ("c09.parse", op_parse); ("c09.roundtrip", op_roundtrip); ("c09.build", op_build) ].
